@@ -27,6 +27,33 @@ CHECKS = {
             "Trusted: Lean kernel; standard axioms; json.dumps/loads and pandas modelled as the identity on JSON-representable data (keys stringified); printing reduced to field equality; "
             "known limitations listed in known_findings.json (inf not strict JSON; save_xk/save_rk arrays).",
             "6/C20"),
+    "C03": ("Lean 4 theorems (invariant over all event lists accepted by the book-keeping acceptor, which replays the run on the proved L1 Model state machine) + trace correspondence",
+            "Proof: for every accepted event list ending with the OptimResults event, xmin_eval_num / obj are those of a candidate whose samples are evaluations really made, "
+            "all at that point number and the same x (soft restarts, hard restarts, exit at x0, averaging). Real traces must be accepted and the candidate's evaluations must reproduce soln.x / soln.resid.",
+            "Trusted: Lean kernel; standard axioms; acceptor = hand-written mirror of the call sites, tied by sampled trace inclusion; float comparison of soln.x/resid with the named evaluations is a correspondence, not a theorem; "
+            "init.run_in_parallel is a recorded finding.",
+            "6/C03"),
+    "C04": ("Lean 4 theorems (coverage invariant over all accepted event lists: the value that would be returned dominates every evaluation made) + trace correspondence",
+            "Proof: for every accepted event list without averaging/regulariser ending with the OptimResults event, soln.obj is at least as good (NaN worst) as the objective of EVERY evaluation event, "
+            "across soft/hard restarts and all exit routes; the acceptor enforces the Guard on writes to the incumbent's row and that no evaluated point is dropped. Real traces must be accepted.",
+            "Trusted: Lean kernel; standard axioms; acceptor tied by sampled trace inclusion; regulariser case only up to rounding (search with tolerance); init.run_in_parallel is a recorded finding.",
+            "6/C04"),
+    "C08": ("Lean 4 theorems (corollaries of the C02/C04 invariants over arbitrary NaN/inf values + absorbing 'raised' phase) + fault enumeration on the real code",
+            "Proof: in every accepted trace a non-NaN evaluation value k forces the returned objective to be a number <= k; budget/numbering hold for any values; no evaluation follows an exception. "
+            "Fault enumeration: every fault kind at sampled/all evaluation indices of reference runs, checked directly and against the acceptors.",
+            "Trusted: Lean kernel; standard axioms; that NumPy/LAPACK never raise after a fault is enumerated, not proved; averaging: the evaluation point (mean) is the unit kept (recorded finding).",
+            "6/C08"),
+    "C10": ("Lean 4 theorems (invariants of the exit/run-count acceptor over all accepted event lists) + trace correspondence",
+            "Proof: nruns = entries of solve_main + successful soft restarts; max-evaluations warning => budget used up; 'maximum unsuccessful restarts' => that many runs; "
+            "'sufficiently small' => tested value <= threshold (not NaN); 'rho has reached rhoend' => rho <= rhoend. Real traces must be accepted; the six implications are searched directly.",
+            "Trusted: Lean kernel; standard axioms; acceptor tied by sampled trace inclusion; 'success never with a non-finite objective' is not a theorem (recorded finding when no evaluation is finite).",
+            "6/C10"),
+    "C14": ("Lean 4 theorems about a model of the coordinate initialisation and the direction generators (any rounding for bounds, exact arithmetic for distances/independence) + bit-exact correspondence",
+            "Proof: every initial point inside the bounds for any rounding; in exact arithmetic (gap >= 2 rhobeg) each point is x0 + t e_i (or a two-coordinate combination) with rhobeg/100 <= |t| <= 2 rhobeg, "
+            "affinely independent, full column rank; generators: count, bounds (any rounding), length <= delta except block 4 (<= 2 delta, recorded finding). "
+            "Model vs real solver / generators compared bit for bit (RNG draws recorded).",
+            "Trusted: Lean kernel; standard axioms; cond < 1e4 is not proved (searched numerically); np.linalg.norm and Q are oracle inputs; projections branch / run_in_parallel / scaling not modelled.",
+            "6/C14"),
 }
 
 PENDING_REASON = "check not built yet in this round (planned: see DESIGN.md section 6); not claimed until its theorem, correspondence and search exist"
